@@ -1,8 +1,10 @@
+mod c03;
 mod c04;
 mod c07;
 mod c11;
 mod c14;
 mod interp;
+mod craft;
 mod gen_ss;
 mod session;
 mod stream;
@@ -30,6 +32,7 @@ fn main() {
             let mut s = session::Session::new();
             let mut rng = util::Rng::new(seed);
             match prop {
+                "C03" => c03::generate(&mut s, tier, &mut rng),
                 "C04" => c04::generate(&mut s, tier, &mut rng),
                 "C07" => c07::generate(&mut s, tier, &mut rng),
                 "C11" => c11::generate(&mut s, tier, &mut rng),
